@@ -2,13 +2,22 @@
    --config scenario) together with what the implementation did.  Evaluated by
    vm_compute in the generated cases files.  The file names of the trees are arbitrary byte
    strings (streams names-* of the harness put them around every excluded extension); besides
-   P, [spec_violations] evaluates P_files, which judges every file of the tree on its own. *)
+   P, [spec_violations] evaluates P_files, which judges every file of the tree on its own, the clauses
+   by entry kind (PX_kinds) and P_hook_set (GetHookNames / GetHook against the discovery, whatever the
+   hooks' valid configurations declare).  The --config code of a file also carries the SHAPE of the valid
+   configuration it prints (10 + shape, C20_Model.shape_bindings); the model's index by binding type is
+   compared with GetHooksInOrder for each of the six binding types. *)
 From Verif Require Import Common C20_Model C20_Spec.
 Local Open Scope N_scope.
 
 (* a case: the tree AS IT IS ON DISK (regular files, directories, symbolic links with what they
    resolve to, FIFOs) and the scenario; the model runs on what Lstat shows of it ([to_input]) *)
-Definition case := (xinput * obs)%type.
+Definition case := (xinput * obs * list (list bytes))%type.
+(* the third component: after an Init run GetHooksInOrder(b) for each b of validBindingTypes, in that
+   order ([] when no Init run was made) *)
+Definition case_input (c : case) : xinput := fst (fst c).
+Definition case_obs (c : case) : obs := snd (fst c).
+Definition case_bound (c : case) : list (list bytes) := snd c.
 
 Definition beh_of (i : input) (name : bytes) : behaviour :=
   match beh_code i name with
@@ -39,7 +48,19 @@ Definition model_of (i : input) : obs :=
          else None)
         (if i_with_init i then index_obs_of i else []).
 
-Definition model_obs (c : case) : obs := model_of (to_input (fst c)).
+(* the configuration a hook answers: the shape carried by the --config code of its file *)
+Definition cfg_of (i : input) (name : bytes) : config := shape_bindings (shape_of_code (beh_code i name)).
+
+Definition registry_of_input (i : input) : registry :=
+  registry_of (i_parent i) (i_root i) (i_children i) (beh_of i) (cfg_of i).
+
+(* hm.GetHooksInOrder(b) for every binding type (all generated configurations carry the same
+   onStartup order, so the stable sort of the OnStartup list changes nothing) *)
+Definition bound_obs_of (i : input) : list (list bytes) :=
+  if i_with_init i then map (rg_in_order (registry_of_input i)) valid_binding_types else [].
+
+Definition model_obs (c : case) : obs * list (list bytes) :=
+  (model_of (to_input (case_input c)), bound_obs_of (to_input (case_input c))).
 
 Definition paths_eqb : list bytes -> list bytes -> bool := list_eqb bytes_eqb.
 Definition init_obs_eqb (a b : init_obs) : bool :=
@@ -51,10 +72,11 @@ Definition obs_eqb (a b : obs) : bool :=
   paths_eqb (o_paths a) (o_paths b) && option_eqb init_obs_eqb (o_init a) (o_init b)
   && index_eqb (o_index a) (o_index b).
 
-Definition agrees (c : case) : bool := obs_eqb (model_obs c) (snd c).
+Definition agrees (c : case) : bool :=
+  obs_eqb (fst (model_obs c)) (case_obs c) && list_eqb paths_eqb (snd (model_obs c)) (case_bound c).
 
 Definition mismatches (cs : list case) : list N := indices_where (fun c => negb (agrees c)) cs.
 (* the property predicate P and, file by file, P_files (every file of the tree is discovered /
    asked for --config as often as the conditions on its own name, mode and directories say) *)
 Definition spec_violations (cs : list case) : list N :=
-  indices_where (fun c => negb (PX (fst c) (snd c))) cs.
+  indices_where (fun c => negb (PC (case_input c) (case_obs c))) cs.
